@@ -68,6 +68,10 @@ type Builder struct {
 
 	errMismatchDone bool
 	aImportsMark    bool
+
+	enumNeedErr bool
+	enumMethods []*model.Method
+	enumPairs   []namedPair
 }
 
 // CtxParam is one context parameter every declared method carries.
@@ -977,6 +981,9 @@ func (b *Builder) Finish() {
 		s.MatchIgnoreCase = m.Settings.MatchIgnoreCase
 		s.IgnoreMissing = m.Settings.IgnoreMissing
 		s.IgnoreUnexported = m.Settings.IgnoreUnexported
+		if m.Settings.EnumUnknown != "" {
+			s.EnumUnknown = m.Settings.EnumUnknown
+		}
 		m.Settings = s
 	}
 	for i, m := range b.Conv.Methods {
